@@ -8,10 +8,10 @@
 #define VERIF_DT_IO_HARNESS_H
 #if !defined VERIF_NATIVE
 #ifndef DTIO_LEN_MAX
-# define DTIO_LEN_MAX 4
+# define DTIO_LEN_MAX 3
 #endif
 #ifndef DTIO_NDL_MAX
-# define DTIO_NDL_MAX 2
+# define DTIO_NDL_MAX 1
 #endif
 static const char *verif_line;
 static size_t verif_len;
